@@ -34,7 +34,9 @@ Inductive value :=
 | VDate (iso : str)
 | VList (l : list value) | VDict (kvs : list (str * value))
 | VData (c : N) (fs : list (str * value))    (* instance of class c: attribute name -> value *)
-| VWrap (kvs : list (str * value)).          (* instance of a wrapper class: its _data *)
+| VWrap (kvs : list (str * value))           (* instance of a wrapper class: its _data *)
+| VUuid (text : str)                         (* a uuid.UUID, represented by its own str() *)
+| VTime (iso : str).                         (* a datetime.time, represented by its own .isoformat() *)
 
 Record field := { f_name : str; f_ty : ty; f_default : option value }.   (* None = required *)
 Record cls := { c_id : N; c_fields : list field;
@@ -97,7 +99,8 @@ Fixpoint value_eqb (a b : value) : bool :=
   | VNone, VNone => true
   | VBool x, VBool y => Bool.eqb x y
   | VInt x, VInt y | VFloat x, VFloat y => Z.eqb x y
-  | VStr x, VStr y | VBytes x, VBytes y | VDatetime x, VDatetime y | VDate x, VDate y => str_eqb x y
+  | VStr x, VStr y | VBytes x, VBytes y | VDatetime x, VDatetime y | VDate x, VDate y
+  | VUuid x, VUuid y | VTime x, VTime y => str_eqb x y
   | VList x, VList y =>
       (fix go (x y : list value) : bool :=
          match x, y with
@@ -149,7 +152,7 @@ Fixpoint project (v : value) : result json :=
   | VDict kvs =>
       bind (map_result (fun kv => bind (project (snd kv)) (fun j => Ok (fst kv, j))) kvs)
            (fun kvs' => Ok (JObj kvs'))
-  | VBytes _ | VDatetime _ | VDate _ | VData _ _ | VWrap _ => Err
+  | VBytes _ | VDatetime _ | VDate _ | VData _ _ | VWrap _ | VUuid _ | VTime _ => Err
   end.
 
 Fixpoint strip_opt (T : ty) : ty := match T with TOpt X => strip_opt X | _ => T end.
@@ -168,7 +171,7 @@ Fixpoint ty_classes (T : ty) : list N :=
    or an absent key).  Optional[X] is served by the Union hook, which looks at X only when needed. *)
 Fixpoint eager_bad (T : ty) : bool :=
   match T with
-  | TUuid | TTime | TFwd _ => true
+  | TFwd _ => true
   | TList X | TDict X => eager_bad X
   | _ => false
   end.
@@ -182,6 +185,8 @@ Section Conv.
   Variable b64enc : list N -> str.                (* base64.b64encode(b).decode() *)
   Variable dt_parse : str -> option str.          (* datetime.fromisoformat(s).isoformat() *)
   Variable date_parse : str -> option str.        (* date.fromisoformat(s).isoformat() *)
+  Variable uuid_parse : str -> option str.        (* str(uuid.UUID(s)) *)
+  Variable time_parse : str -> option str.        (* time.fromisoformat(s).isoformat() *)
   Variable int_of_str : str -> option Z.          (* int(s) *)
   Variable float_of_str : str -> option Z.        (* float(s), integral results only *)
   Variable str_of_json : json -> str.             (* str(x) for a non-str JSON object *)
@@ -237,7 +242,9 @@ Section Conv.
     | TBytes => match b64dec s with Some b => Ok (VBytes b) | None => Err end
     | TDatetime => structure_datetime s
     | TDate => match date_parse s with Some c => Ok (VDate c) | None => Err end
-    | TUuid | TTime | TFwd _ => Err              (* StructureHandlerNotFoundError (F03a, F03c) *)
+    | TUuid => match uuid_parse s with Some c => Ok (VUuid c) | None => Err end
+    | TTime => match time_parse s with Some c => Ok (VTime c) | None => Err end
+    | TFwd _ => Err                              (* StructureHandlerNotFoundError (F03c) *)
     | TWrap _ => Err                             (* wrapper hook: 'str' object has no attribute 'items' *)
     | TEnum vals => if mem_str s vals then Ok (VStr s) else Err    (* E(value): ValueError when not a member *)
     | TAny => Ok (VStr s)
@@ -325,8 +332,8 @@ Section Conv.
                 end
     | TBool => Ok (VBool (truthy j))
     | TBytes => Ok (inject j)          (* structure_with_base64_bytes returns non-str data unchanged *)
-    | TDatetime | TDate => Err         (* TypeError("Cannot convert ...") *)
-    | TUuid | TTime | TFwd _ => Err
+    | TDatetime | TDate | TUuid | TTime => Err   (* TypeError("Cannot convert ...") *)
+    | TFwd _ => Err
     | TEnum _ => Err                   (* E(5), E(None), E([..]) : ValueError / TypeError (unhashable) *)
     | TAny => Ok (inject j)
     | TList X =>
@@ -401,16 +408,17 @@ Section Conv.
   Definition unstructure_nonopt (v : value) (kl : list (ty -> result json))
       (kd : list (str * (ty -> result json))) (T : ty) : result json :=
     match T with
-    | TStr | TInt | TFloat | TBool | TUuid | TTime | TFwd _ => project v  (* identity *)
+    | TStr | TInt | TFloat | TBool | TFwd _ => project v  (* identity *)
     | TBytes => match v with VBytes b => Ok (JStr (b64enc b)) | _ => Err end
-    | TDatetime | TDate => match v with VDatetime s | VDate s => Ok (JStr s) | _ => Err end
+    | TDatetime | TDate | TTime => match v with VDatetime s | VDate s | VTime s => Ok (JStr s) | _ => Err end   (* .isoformat() *)
+    | TUuid => match v with VUuid s | VStr s => Ok (JStr s) | _ => Err end   (* str(x); str() of other objects not modelled *)
     | TEnum _ => match v with VStr s => Ok (JStr s) | _ => Err end          (* member.value *)
     | TAny =>
         match v with
         | VNone => Ok JNull | VBool b => Ok (JBool b) | VInt z => Ok (JInt z) | VFloat z => Ok (JFloat z)
         | VStr s => Ok (JStr s)
         | VBytes b => Ok (JStr (b64enc b))
-        | VDatetime s | VDate s => Ok (JStr s)
+        | VDatetime s | VDate s | VTime s | VUuid s => Ok (JStr s)
         | VList _ => bind (map_result (fun kid => kid TAny) kl) (fun l => Ok (JArr l))
         | VDict _ => bind (map_result (fun kv => bind (snd kv TAny) (fun j => Ok (fst kv, j))) kd)
                           (fun l => Ok (JObj l))
@@ -473,7 +481,7 @@ Section Conv.
      (Optional[Dict[str, Any]] returns the raw document, covered by the correspondence only) *)
   Fixpoint ty_ok (T : ty) : bool :=
     match T with
-    | TUuid | TTime | TFwd _ | TWrap _ => false    (* wrapper classes: correspondence and oracle only *)
+    | TFwd _ | TWrap _ => false    (* wrapper classes: correspondence and oracle only *)
     | TList X | TDict X => ty_ok X
     | TOpt X => ty_ok X && match X with TOpt _ | TDict TAny | TAny => false | _ => true end
     | _ => true
@@ -504,6 +512,8 @@ Section Conv.
   | I_bytes b : inst_ok TBytes (VBytes b)
   | I_dt s : dt_parse s = Some s -> replace_Z s = s -> inst_ok TDatetime (VDatetime s)
   | I_date s : date_parse s = Some s -> inst_ok TDate (VDate s)
+  | I_uuid s : uuid_parse s = Some s -> inst_ok TUuid (VUuid s)
+  | I_time s : time_parse s = Some s -> inst_ok TTime (VTime s)
   | I_enum vals s : mem_str s vals = true -> inst_ok (TEnum vals) (VStr s)
   | I_any j : inst_ok TAny (inject j)
   | I_list X l : Forall (inst_ok X) l -> inst_ok (TList X) (VList l)
